@@ -1257,6 +1257,8 @@ class Gen(object):
             return op
         if want_raise:
             op['raise'] = True
+            if r.random() < 0.25:
+                op['sticky'] = True     # a strict handler: raises every time, and so do the library's copies of it
         else:
             inner = []
             for _ in range(r.randint(1, 2)):
